@@ -236,6 +236,8 @@ def check_coverage(run, f, cfg):
         return
     body = nhir(f, nn)
     run.ob("C16.R4", "next:loop-free", not [n for n in walk(body) if n.get("k") == "loop"], "Tokenizer::next contains no loop", sp=fn["sp"], cfg=cfg)
+    if check_next_table(run, f, cfg):
+        return
     ps = P.fn_paths(body)
     none_paths = [p for p in ps if p.out == "ret" and isinstance(H.peel_ref(p.value), dict) and H.peel_ref(p.value).get("def") == "core::option::Option::None"]
     ok = len(none_paths) == 1
@@ -251,6 +253,78 @@ def check_coverage(run, f, cfg):
             lets = [c for c in p.conds if c[0] == "if" and c[1].get("k") == "let" and c[2]]
             some_ok = some_ok and bool(lets) and H.place(v["args"][0]) == (lets[-1][1]["pat"].get("subs") or [{}])[0].get("name")
     run.ob("C16.R3", "next:passes-token", some_ok, "next() returns the sub-lexer's token unchanged", sp=fn["sp"], cfg=cfg)
+
+
+def check_contract(run, f, cfg, maxlen=3):
+    """R2 as a table: every sub-lexer called on every tape of class representatives up to length `maxlen` either returns
+    None without consuming, or returns its own token variant whose text is exactly the consumed prefix (>= 1 character).
+    The bodies are interpreted, so their form (helper functions, loop shapes) does not matter."""
+    alpha = list(CLASSES)
+    small = [" ", "a", "7", "_", "$", "`", "]", "'", '"', "\\", "?", "\u00e9"]
+    tapes = [""] + ["".join(t) for t in product(alpha, repeat=1)] + ["".join(t) for t in product(alpha, repeat=2)] + \
+        ["".join(t) for ln in range(3, maxlen + 1) for t in product(small, repeat=ln)]
+    variant = {"space": "Space", "unquoted": "Unquoted", "quoted": "Quoted", "punctuation": "Punctuation"}
+    for name in SUBLEXERS:
+        bad = []
+        n = 0
+        try:
+            for s_ in tapes:
+                r, p_ = run_sub(f, name, s_)
+                n += 1
+                if r is None:
+                    ok = p_ == 0
+                else:
+                    ok = isinstance(r, tuple) and r[0] == "__some" and isinstance(r[1], Var) and r[1].d.endswith("Token::" + variant[name]) and \
+                        isinstance(r[1].fields[0], str) and p_ >= 1 and r[1].fields[0] == s_[:p_]
+                if not ok and len(bad) < 6:
+                    bad.append("%s(%r) -> %r, position %d" % (name, s_, r, p_))
+        except (Unsupported, Diverged) as e:
+            run.anchor("C16.R2", name + ":contract", "%s outside the interpreter's fragment: %s" % (name, e), cfg)
+            continue
+        run.ob("C16.R2", name + ":contract", not bad,
+               "%s tabulated on %d tapes: None <=> nothing consumed; otherwise a Token::%s whose text is exactly the consumed prefix%s" % (
+                   name, n, variant[name], "" if not bad else " - EXCEPT " + "; ".join(bad)), cfg=cfg, detail=bad or None)
+        run.floor("C16.R2", name + ":tapes", n, 1000, cfg)
+
+
+def check_next_table(run, f, cfg):
+    """R3: Tokenizer::next over the 16 combinations of sub-lexer outcomes (stubbed): the result is the first token in the
+    order space, unquoted, quoted, punctuation, untouched; None only when all four returned None; no sub-lexer is called
+    after one succeeded"""
+    nn = None
+    for i in f.impls:
+        if i.get("trait") == "core::iter::traits::iterator::Iterator" and i.get("self_adt") == TK:
+            nn = i["items"].get("next")
+    if nn is None or nn not in f.fns:
+        run.anchor("C16.R3", "next", "Iterator::next for Tokenizer not found", cfg)
+        return False
+    bad = []
+    try:
+        for outcome in product([False, True], repeat=4):
+            calls = []
+            toks = {name: Var("crate::token::Token::X", [name]) for name in SUBLEXERS}
+            b = std_builtins()
+            for name, yes in zip(SUBLEXERS, outcome):
+                def stub(it, a, name=name, yes=yes):
+                    calls.append(name)
+                    return ("__some", toks[name]) if yes else None
+                b[TK + "::" + name] = stub
+            it = Interp(f, builtins=b)
+            r = it.call_fn(nn, [make_tok("ab")])
+            first = [nm for nm, yes in zip(SUBLEXERS, outcome) if yes]
+            want = ("__some", toks[first[0]]) if first else None
+            want_calls = SUBLEXERS[:SUBLEXERS.index(first[0]) + 1] if first else list(SUBLEXERS)
+            got_ok = (r is None and want is None) or (isinstance(r, tuple) and want is not None and r[0] == "__some" and r[1] is want[1])
+            if not got_ok or calls != want_calls:
+                bad.append("%s -> %r after calling %s" % (dict(zip(SUBLEXERS, outcome)), r, calls))
+    except (Unsupported, Diverged) as e:
+        run.notes.append("Tokenizer::next outside the interpreter's fragment (%s): path rules applied instead" % e)
+        return False
+    run.ob("C16.R3", "next:table", not bad,
+           "next() tabulated on the 16 combinations of sub-lexer outcomes: it returns the first token (space, unquoted, quoted, punctuation) "
+           "unchanged, None only when all four returned None, and calls nothing after a success%s" % ("" if not bad else " - EXCEPT " + "; ".join(bad[:4])),
+           sp=f.fns[nn]["sp"], cfg=cfg, detail=bad or None)
+    return True
 
 
 def check_display(run, f, cfg):
@@ -342,11 +416,39 @@ def check_grouping(run, f, cfg, maxlen=3):
     # a placeholder mark inside quotes is never a Punctuation token of its own: follows from the table (`?`/`$` are body classes)
 
 
+class _Lenient:
+    """for a sub-lexer whose tabulated contract holds: an unrecognised shape (anchor) or a failed shape test of the
+    structural rules R1 / R2 is recorded as a note, not as a violation; R4 (progress) stays as it is"""
+
+    def __init__(self, run, name):
+        self._run = run
+        self._name = name
+
+    def __getattr__(self, k):
+        return getattr(self._run, k)
+
+    def anchor(self, rule, key, what, cfg=None):
+        if rule in ("C16.R1", "C16.R2"):
+            self._run.notes.append("%s: structural rule %s not applicable to this form of the body (%s); decided by the tabulated contract" % (self._name, rule, what))
+            return
+        return self._run.anchor(rule, key, what, cfg)
+
+    def ob(self, rule, key, ok, what, **kw):
+        if rule in ("C16.R1", "C16.R2") and not ok:
+            self._run.notes.append("%s: structural rule %s:%s does not recognise this form of the body; decided by the tabulated contract" % (self._name, rule, key))
+            return True
+        return self._run.ob(rule, key, ok, what, **kw)
+
+
 def check(run):
     for cfg in run.tier_configs(["default"], ["all"]):
         f = run.facts(cfg)
+        check_contract(run, f, cfg, 4 if run.tier == "thorough" else 3)
+        table_ok = {o["key"].split(":")[1] for o in run.obs if o["rule"] == "C16.R2" and o["key"].endswith(":contract") and o["ok"] and o["cfg"] == cfg}
         for name in SUBLEXERS:
-            check_sublexer(run, f, cfg, name)
+            # the structural rules (pairing of inc() with an append on every loop path, shape of the result) argue for tapes of
+            # any length; where a body has a form they do not recognise, the tabulated contract (bounded tapes) stands alone
+            check_sublexer(_Lenient(run, name) if name in table_ok else run, f, cfg, name)
         check_coverage(run, f, cfg)
         check_display(run, f, cfg)
         check_grouping(run, f, cfg, 4 if run.tier == "thorough" else 3)
